@@ -7,6 +7,7 @@
 //! length and byte position x {bit flip, 0x00, 0xFF} of segment and checkpoint images (quick:
 //! header/footer positions + sample; thorough: all).
 use crate::c07;
+use crate::c10::{boundary_values, constant_runs, le_bytes, overwrite};
 use crate::enc::{hex, show_real, MCrdt, MLww, MRv};
 use crate::out::Out;
 use crate::rng::Rng;
@@ -147,7 +148,13 @@ fn roundtrips(ds: &[ReplicationDelta], rng: &mut Rng, out: &mut Out) {
         let e = WalEntry::from_delta(d, ts).unwrap();
         let enc = e.encode();
         out.op(format!("W {} {}", ts, hex(&e.data)), hex(&enc));
-        let back = WalEntry::decode(&enc);
+        let back = match catch_unwind(AssertUnwindSafe(|| WalEntry::decode(&enc))) {
+            Ok(b) => b,
+            Err(_) => {
+                out.violation("C14:wal-entry:panic:roundtrip", "WalEntry::decode panicked on a freshly encoded entry", json!({"entry": hex(&enc)}));
+                None
+            }
+        };
         out.op(
             format!("wd {}", hex(&enc)),
             match &back {
@@ -306,6 +313,61 @@ fn segment_case(ds: &[ReplicationDelta], rng: &mut Rng, out: &mut Out, thorough:
             }
         }
     }
+    // boundary values in every integer field (header: version, flags, record_count, min/max stamp,
+    // header crc; every record length prefix; footer: data crc, sizes) and constant runs at every
+    // field / record boundary, written over or appended after a cut
+    {
+        let mut fields: Vec<(usize, usize, &str)> = vec![(4, 1, "header"), (5, 1, "header"), (6, 4, "record-count"), (10, 8, "header"), (18, 8, "header"), (26, 4, "header-crc"), (n - 24, 4, "footer-crc"), (n - 20, 8, "footer-size"), (n - 12, 8, "footer-size")];
+        let mut bounds: Vec<usize> = vec![0, 4, 6, 10, 18, 26, 30, 40, n - 24, n - 20, n - 4, n];
+        let mut off = 40usize;
+        for (i, d) in ds.iter().enumerate() {
+            let l = bincode::serialize(d).unwrap().len();
+            if thorough || i == 0 || i + 1 == ds.len() {
+                fields.push((off, 4, "record-length"));
+                bounds.extend([off, off + 4]);
+            }
+            off += 4 + l;
+        }
+        bounds.sort();
+        bounds.dedup();
+        let mut check = |out: &mut Out, op: String, b: &[u8], what: &str| {
+            let r = read_segment(b);
+            out.op(op.clone(), show(&r));
+            out.count(&format!("damage:segment:{}", what));
+            match &r {
+                Err(_) => out.violation(&format!("C14:segment:panic:{}", what), "reading a damaged segment panicked", json!({"segment": hex(&img), "damage": op})),
+                Ok(Err(_)) => {}
+                Ok(Ok(d)) => {
+                    if !same(d) {
+                        out.violation(&format!("C14:segment:{}:decoded-different", what), "a damaged segment decoded into different data", json!({"segment": hex(&img), "damage": op}));
+                    }
+                }
+            }
+        };
+        for (pos, width, what) in fields {
+            let remaining = (n - pos) as u64;
+            let extra = [remaining, remaining.saturating_sub(4), remaining.saturating_sub(28), (1u64 << 32) - pos as u64, (1u64 << 32) - 4 - pos as u64];
+            for v in boundary_values(width, &extra) {
+                let w = le_bytes(v, width);
+                if img[pos..pos + width] == w[..] {
+                    continue;
+                }
+                check(out, format!("sw {} {}", pos, hex(&w)), &overwrite(&img, pos, &w), &format!("boundary-value:{}", what));
+            }
+        }
+        for p in bounds {
+            for run in constant_runs() {
+                if p < n && (thorough || run[0] != 0x55) {
+                    check(out, format!("sw {} {}", p, hex(&run)), &overwrite(&img, p, &run), "constant-run");
+                }
+                if run.len() >= 16 {
+                    let mut b = img[..p].to_vec();
+                    b.extend_from_slice(&run);
+                    check(out, format!("sta {} {}", p, hex(&run)), &b, "cut+constant-tail");
+                }
+            }
+        }
+    }
     for (p, v) in m.subs {
         let mut b = img.clone();
         b[p] = v;
@@ -374,6 +436,50 @@ fn checkpoint_case(ds: &[ReplicationDelta], rng: &mut Rng, out: &mut Out, thorou
             Ok(Ok(_)) => out.violation("C14:checkpoint:truncate:decoded", "a truncated checkpoint was decoded", json!({"checkpoint": hex(&img), "len": l})),
         }
     }
+    // boundary values in every integer field (header: version, flags, key_count, timestamp,
+    // last_segment_id, header crc; data length; footer: data crc, data size, footer crc) and
+    // constant runs at every field boundary
+    {
+        let fields: Vec<(usize, usize, &str)> = vec![(4, 1, "header"), (5, 1, "header"), (8, 8, "header"), (16, 8, "header"), (24, 8, "header"), (44, 4, "header-crc"), (48, 4, "data-length"), (n - 16, 4, "footer"), (n - 12, 8, "footer-size"), (n - 4, 4, "footer")];
+        let bounds: Vec<usize> = vec![0, 4, 6, 8, 16, 24, 32, 44, 48, 52, n - 16, n - 12, n - 4, n];
+        let mut check = |out: &mut Out, op: String, b: &[u8], what: &str| {
+            let r = read_checkpoint(b);
+            out.op(op.clone(), show(&r));
+            out.count(&format!("damage:checkpoint:{}", what));
+            match &r {
+                Err(_) => out.violation(&format!("C14:checkpoint:panic:{}", what), "reading a damaged checkpoint panicked", json!({"checkpoint": hex(&img), "damage": op})),
+                Ok(Err(_)) => {}
+                Ok(Ok(st)) => {
+                    if show_state(st) != orig {
+                        out.violation(&format!("C14:checkpoint:{}:decoded-different", what), "a damaged checkpoint decoded into different data", json!({"checkpoint": hex(&img), "damage": op}));
+                    }
+                }
+            }
+        };
+        for (pos, width, what) in fields {
+            let remaining = (n - pos) as u64;
+            let extra = [remaining, remaining.saturating_sub(4), remaining.saturating_sub(20), (n - 68) as u64 + 1, ((n - 68) as u64).saturating_sub(1), (1u64 << 32) - 52, (1u64 << 32) - 68];
+            for v in boundary_values(width, &extra) {
+                let w = le_bytes(v, width);
+                if img[pos..pos + width] == w[..] {
+                    continue;
+                }
+                check(out, format!("cw {} {}", pos, hex(&w)), &overwrite(&img, pos, &w), &format!("boundary-value:{}", what));
+            }
+        }
+        for p in bounds {
+            for run in constant_runs() {
+                if p < n && (thorough || run[0] != 0x55) {
+                    check(out, format!("cw {} {}", p, hex(&run)), &overwrite(&img, p, &run), "constant-run");
+                }
+                if run.len() >= 16 {
+                    let mut b = img[..p].to_vec();
+                    b.extend_from_slice(&run);
+                    check(out, format!("cta {} {}", p, hex(&run)), &b, "cut+constant-tail");
+                }
+            }
+        }
+    }
     for (p, v) in m.subs {
         let mut b = img.clone();
         b[p] = v;
@@ -410,6 +516,45 @@ fn checkpoint_case(ds: &[ReplicationDelta], rng: &mut Rng, out: &mut Out, thorou
 fn wal_entry_damage(d: &ReplicationDelta, rng: &mut Rng, out: &mut Out, thorough: bool, fixed: bool) {
     let e = WalEntry::from_delta(d, 5).unwrap();
     let img = e.encode();
+    // boundary values in the three header fields and constant runs at every field boundary
+    let mut images: Vec<(Vec<u8>, String)> = Vec::new();
+    for (pos, width, what) in [(0usize, 4usize, "len"), (4, 8, "timestamp"), (12, 4, "crc")] {
+        let remaining = img.len() as u64;
+        let extra = [remaining - 16, remaining - 15, remaining - 17, remaining, (1u64 << 32) - 16, (1u64 << 32) - 17];
+        for v in boundary_values(width, &extra) {
+            let w = le_bytes(v, width);
+            if img[pos..pos + width] != w[..] {
+                images.push((overwrite(&img, pos, &w), format!("boundary-value:{}", what)));
+            }
+        }
+    }
+    for p in [0usize, 4, 12, 16] {
+        for run in constant_runs() {
+            images.push((overwrite(&img, p, &run), "constant-run".into()));
+            let mut b = img[..p].to_vec();
+            b.extend_from_slice(&run);
+            images.push((b, "cut+constant-tail".into()));
+        }
+    }
+    for (b, what) in images {
+        let r = catch_unwind(AssertUnwindSafe(|| WalEntry::decode(&b)));
+        let imp = match &r {
+            Err(_) => "crash".to_string(),
+            Ok(None) => "none".into(),
+            Ok(Some((e2, n))) => format!("{} {} {} {}", e2.timestamp, e2.checksum, hex(&e2.data), n),
+        };
+        out.op(format!("wd {}", hex(&b)), imp);
+        out.count(&format!("damage:wal-entry:{}", what));
+        match r {
+            Err(_) => out.violation(&format!("C14:wal-entry:panic:{}", what), "WalEntry::decode panicked", json!({"entry": hex(&b), "pristine": hex(&img)})),
+            Ok(None) => {}
+            Ok(Some((e2, _))) => {
+                if e2.data != e.data || e2.timestamp != e.timestamp {
+                    out.violation(&format!("C14:wal-entry:{}:decoded-different", what), "a damaged WAL entry decoded into different data", json!({"entry": hex(&b), "pristine": hex(&img)}));
+                }
+            }
+        }
+    }
     let mut subs: Vec<(usize, u8)> = Vec::new();
     if fixed {
         subs.push((5, 1)); // second stamp byte 0 -> 1: stamp 5 -> 261
@@ -436,7 +581,7 @@ fn wal_entry_damage(d: &ReplicationDelta, rng: &mut Rng, out: &mut Out, thorough
         let region = if p < 4 { "len" } else if p < 12 { "timestamp" } else if p < 16 { "crc" } else { "payload" };
         out.count(&format!("damage:wal-entry:{}", region));
         match r {
-            Err(_) => out.violation("C14:wal-entry:panic", "WalEntry::decode panicked", json!({"entry": hex(&b)})),
+            Err(_) => out.violation("C14:wal-entry:panic:byte", "WalEntry::decode panicked", json!({"entry": hex(&b)})),
             Ok(None) => {}
             Ok(Some((e2, _))) => {
                 if e2.data != e.data {
